@@ -192,3 +192,6 @@ func (t *Type) IsSignedNumber() bool {
 	}
 	return false
 }
+
+// SliceOf returns the reflect type of a slice of t.
+func SliceOf(t *Type) reflect.Type { return reflect.SliceOf(t.RT) }
